@@ -161,7 +161,48 @@ def run_frame(part, h, w, how):
     part.add("frames", (h, w, how))
 
 
+def run_history(part, K):
+    """Frames handled one after another in the same process: pairs of shapes that collide under a packed key h*K+w (or
+    w*K+h), each checked against the lattice model right after its partner - a per-shape cache keyed carelessly, or any other
+    state kept between frames, shows here."""
+    from cspuz import BoolGridFrame, Solver, graph
+
+    seqs = []
+    for c in (0, 1, 3):
+        seqs.append([(0, K + c), (1, c)])
+        seqs.append([(1, c), (0, K + c)])
+        seqs.append([(K + c, 0), (c, 1)])
+        seqs.append([(2, K + c + 1), (3, c + 1), (2, K + c + 1)])
+    for seq in seqs:
+        for (h, w) in seq:
+            part.count("evaluations")
+            case = {"frame": [h, w], "built": "default", "history": [list(x) for x in seq]}
+            s = Solver()
+            fr = BoolGridFrame(s, h, w)
+            hid, vid = ids(fr.horizontal.data), ids(fr.vertical.data)
+            seg = model(h, w, hid, vid)
+            st, r = obs(lambda: graph._from_grid_frame(fr))
+            if st != "ok":
+                part.violation("history:from_grid_frame:" + st, case, {"detail": r})
+                continue
+            edges, g = r
+            got = {}
+            bad = g.num_vertices != (h + 1) * (w + 1) or len(edges) != len(g.edges) or len(edges) != len(seg)
+            if not bad:
+                for e, (u, v) in zip(edges, g.edges):
+                    got[frozenset([divmod(u, w + 1), divmod(v, w + 1)])] = getattr(e, "id", None)
+            if bad or got != seg:
+                part.violation("history:from_grid_frame:edge-set-differs", case, {"edges": len(edges), "graph_edges": len(g.edges), "segments": len(seg)})
+            st, d = obs(lambda: fr.dual().dual())
+            if st != "ok" or d.height != h or d.width != w or ids(d.horizontal.data) != hid:
+                part.violation("history:dual", case, {"observed": st})
+    part.add("frames", ("history", K))
+
+
 def worker(shard, part):
+    if shard[0] == "history":
+        run_history(part, shard[1])
+        return
     h, w, how = shard
     run_frame(part, h, w, how)
     if (h, w) == (2, 1):
@@ -175,11 +216,13 @@ def main(tier, seed, only=None):
     for (h, w) in ([(16, 17), (1, 300), (33, 2)] if tier == "quick" else [(16, 17), (1, 300), (300, 1), (33, 2), (2, 40), (45, 45), (64, 33)]):
         shards.append((h, w, "default"))
         shards.append((h, w, "dual-of-inner"))
+    for K in ((10, 16, 64, 100, 256, 1000) if tier == "quick" else (8, 10, 16, 32, 64, 100, 128, 256, 512, 1000, 1024, 4096)):
+        shards.append(("history", K))
     run = harness.Run(
         PID, tier, seed, "exploration",
         "BoolGridFrame with h, w in 0..%d (plus large frames 16x17, 1x300, 33x2; thorough 45x45, 64x33), built by default, from explicit arrays, and as the dual of a BoolInnerGridFrame; __getitem__ at "
         "every doubled coordinate in [-2,2h+2]x[-2,2w+2]; cell_neighbors / vertex_neighbors at every coordinate in [-1,h+1]x[-1,w+1] in both call "
-        "forms; all_edges, iteration, graph._from_grid_frame, dual(), dual().dual().  Reference model: segment = pair of lattice points -> "
+        "forms; all_edges, iteration, graph._from_grid_frame, dual(), dual().dual(); histories: pairs / triples of frames whose shapes collide under a packed key h*K+w for K in 10..1000 (thorough 4096), handled back to back in one process.  Reference model: segment = pair of lattice points -> "
         "variable id.  Non-trivial = distinct (frame, construction) fully checked." % top,
     )
     run.assumptions = ["order inside cell_neighbors / vertex_neighbors results is not judged (the property speaks of edge sets)"]
@@ -190,6 +233,11 @@ def main(tier, seed, only=None):
 
 def replay(case):
     part = harness.Partial()
+    if "history" in case:
+        for K in (8, 10, 16, 32, 64, 100, 128, 256, 512, 1000, 1024, 4096):
+            run_history(part, K)
+        mine = [v for v in part.violations if v.case.get("history") == case["history"] and v.case.get("frame") == case["frame"]]
+        return (not mine), (mine[0].detail if mine else "agrees")
     run_frame(part, case["frame"][0], case["frame"][1], case["built"])
     mine = [v for v in part.violations if all(v.case.get(k) == case.get(k) for k in ("at", "form"))]
     return (not mine), (mine[0].detail if mine else "agrees")
